@@ -514,9 +514,10 @@ class SciPyOptimizer(Optimizer):
             and self._config.variables.types is not None
             and "integrality" not in options
         ):
-            options["integrality"] = (
-                self._config.variables.types == VariableType.INTEGER
-            )
+            # The optimizer only sees the free variables:
+            integrality = self._config.variables.types == VariableType.INTEGER
+            mask = self._config.variables.mask
+            options["integrality"] = integrality if mask is None else integrality[mask]
 
         return options
 
